@@ -427,10 +427,14 @@ def finish(pid, tier, t0, res, cov_extra, assumptions, level="model_checking"):
     with open(os.path.join(evdir, pid + ".json"), "w") as f:
         json.dump(ev, f, indent=1, sort_keys=True)
         f.write("\n")
-    if res.errs:
+    if res.errs and not nviol:
         for e in res.errs[:10]:
             print("HARNESS-ERROR: " + e[:3000])
         return 2
+    for e in res.errs[:5]:
+        # violations were observed and have replay artefacts; the run also had trouble of its own (typically a
+        # consequence: shards slowed down by crash after crash)
+        print("HARNESS-NOTE: " + " ".join(e.split())[:400])
     print("%s %s: states=%d transitions=%d validated=%d distinct_nontrivial=%d exhaustive=%s violations=%d wall=%.1fs" %
           (pid, tier, cov["states"], cov["transitions"], cov["traces_validated_against_impl"],
            cov["distinct_nontrivial"], cov["exhaustive"], nviol, time.time() - t0))
